@@ -61,7 +61,8 @@ ASSUMPTIONS = [
 
 PREFIXES = (REPO.rstrip('/') + '/ombott/', echo.__file__.rsplit('/', 1)[0] + '/')
 KINDS = ['echo_get', 'echo_post', 'echo_head', 'upload', 'raise_err', 'raise_resp', 'teapot', 'crash', 'gen',
-         'notfound', 'notallowed', 'json404', 'badchunk', 'chunked_ok', 'big', 'badpath', 'echo_put', 'hookcrash', 'badchunk_json', 'badjson', 'goodjson', 'badchunk_sizeline', 'busy_str', 'limit_num', 'upload_typed', 'upload_plain', 'badmultipart', 'boom_fixed_url', 'fixed_get', 'fixed_post', 'fixed_fail', 'panel', 'public', 'session']
+         'notfound', 'notallowed', 'json404', 'badchunk', 'chunked_ok', 'big', 'badpath', 'echo_put', 'hookcrash', 'badchunk_json', 'badjson', 'goodjson', 'badchunk_sizeline', 'busy_str', 'limit_num', 'upload_typed', 'upload_plain', 'badmultipart', 'boom_fixed_url', 'fixed_get', 'fixed_post', 'fixed_fail', 'panel', 'public', 'session', 'charset']
+CHARSETS = ['latin1', 'utf-16-le', 'utf-8', 'cp1252', 'iso-8859-15']
 _MARK = re.compile(r'Z\d+z')
 
 
@@ -76,6 +77,10 @@ def gen_spec(rng, i, kind=None):
     elif kind == 'raise_resp':
         spec['status'] = rng.choice([200, 202, 302])
         spec['resp'] = True
+    elif kind == 'charset':
+        # a text response in a charset of the handler's choosing (different for neighbouring positions), non-ASCII content
+        spec['cs'] = CHARSETS[(2 * i + rng.randrange(2)) % len(CHARSETS)]
+        spec['as_gen'] = rng.random() < 0.5
     return spec
 
 
@@ -179,6 +184,8 @@ def environ_of(spec):
             kw = {'content_length': len(body), 'content_type': 'application/x-www-form-urlencoded'}
         if kind == 'fixed_fail':
             headers['X-Fail'] = '1'
+    elif kind == 'charset':
+        path = '/charset/' + m
     elif kind == 'busy_str':
         path = '/busy/' + m
     elif kind == 'limit_num':
@@ -219,6 +226,25 @@ def wellformed(r, method):
             out.append(f'HTML page labelled {ct!r}')
         if r.body[:1] == b'{' and r.body[-1:] == b'}' and r.code and r.code >= 400 and 'html' in ct:
             out.append(f'JSON error body labelled {ct!r}')
+    return out
+
+
+def own_text_problems(r, spec):
+    """Reference-free clause for the `charset` kind: the body is the handler's text in the charset the handler
+    declared (an encoding picked up from another request's response shows here even when both threads agree)."""
+    if spec['kind'] != 'charset' or r.escaped is not None or r.code != 200:
+        return []
+    want = 'caf\xe9-' + spec['m'] + '-\xfc\xdf'
+    ct = r.header('Content-Type') or ''
+    out = []
+    if ct.replace(' ', '').lower() != ('text/plain;charset=' + spec['cs']).lower():
+        out.append(f'Content-Type is {ct!r}, the handler declared charset {spec["cs"]}')
+    try:
+        got = r.body.decode(spec['cs'])
+    except UnicodeDecodeError:
+        got = None
+    if got != want:
+        out.append(f'body {r.body[:40]!r} is not the handler\'s text {want!r} in the declared charset {spec["cs"]}')
     return out
 
 
@@ -372,7 +398,7 @@ def sweep_units(tier, root):
     if tier == 'quick':
         # always: pairs in which both requests walk the same stream / container code at the same time
         fixed = [('chunked_ok', 'chunked_ok'), ('upload', 'upload_typed'), ('echo_post', 'fixed_post'), ('badjson', 'badchunk_json'),
-                 ('fixed_get', 'fixed_get'), ('session', 'session')]
+                 ('fixed_get', 'fixed_get'), ('session', 'session'), ('charset', 'charset')]
         pairs = fixed + rng.sample(pairs, 18)
     units = []
     for a, b in pairs:
@@ -480,7 +506,7 @@ def run_case(case):
                       f'thread {i} ({sp["kind"]} {m}): response mentions {f}: status {r.status!r}, headers {r.headers!r}')
         # intrinsic well-formedness (independent of any reference run: a reference served by the same
         # process shares process-wide objects such as the errors_map responses with the run under test)
-        probs = wellformed(r, environ_method(sp))
+        probs = wellformed(r, environ_method(sp)) + own_text_problems(r, sp)
         if probs:
             violation(res, 'C08:malformed-response', f'thread {i} ({sp["kind"]} {m}): ' + '; '.join(probs))
         # served-alone equivalence
